@@ -1,6 +1,6 @@
 (* One entry point for the correspondence check: run a parsed case on the model. *)
 Require Import V.Base.Prim V.Model.Structs V.Model.Utf8 V.Model.Table V.Model.StrTab.
-Require Import V.Model.File V.Model.Hash V.Model.Note V.Model.SymVer V.Model.ElfBytes.
+Require Import V.Model.File V.Model.Hash V.Model.Note V.Model.SymVer V.Model.ElfBytes V.Model.ErrFmt.
 Require Import V.Extract.Out.
 
 (* ---------- integers (C04) ---------- *)
@@ -111,7 +111,7 @@ Definition run_table_q (p : ptype) (s : espec) (c : class) (d : buf) (q : list a
   | [AW w] =>
     if String.eqb w "len" then ON (table_len size d)
     else if String.eqb w "empty" then ob (table_is_empty size d)
-    else if String.eqb w "iter" then
+    else if String.eqb w "iter" || String.eqb w "intoiter" then    (* iter() / IntoIterator::into_iter() *)
       match iter_all parse d with Some l => OL (map (pt_out p) l) | None => OT "fuel" [] end
     else OBad
   | AW "walk" :: acts => OL (walk parse (pt_out p) d (iter_fuel d) (nums_of acts) 0)
@@ -209,6 +209,10 @@ Definition run_viter_q (kind : string) (s : espec) (c : class) (d : buf) (st : v
     else if String.eqb kind "verneed" then o_verneeds s c d st
     else if String.eqb kind "verdaux" then o_viter_aux (verdaux_next s c d) o_verdaux d st
     else if String.eqb kind "vernaux" then o_viter_aux (vernaux_next s c d) o_vernaux d st
+    else OBad
+  | [AW w; AB strs] =>
+    if String.eqb w "names" && String.eqb kind "verdaux" then
+      ofuel (ores (fun l => OL (map (ores (orange_at 0)) l))) (definition_names s c d strs st)
     else OBad
   | [AW w; AN k] =>
     if negb (String.eqb w "nexts") then OBad else
@@ -354,8 +358,25 @@ End Bytes.
 Definition run_bytes (fam : specfam) (f : buf) (qs : list (list arg)) : out :=
   ores (fun eb => OL (map (run_bytes_q f eb) qs)) (minimal_parse fam f).
 
+Definition perr_of_kind (k a b c d : N) : option perr :=
+  nth_error [EBadMagic a b c d; EUnsupportedElfClass a; EUnsupportedElfEndianness a; EUnsupportedVersion a b;
+             EBadOffset a; EStringTableMissingNul a; EBadEntsize a b; EUnexpectedSectionType a b;
+             EUnexpectedSegmentType a b; EUnexpectedAlignment a; ESliceReadError a b; EIntegerOverflow;
+             EUtf8Error; ETryFromSliceError; ETryFromIntError; EIOError] (N.to_nat k).
+
 Definition run (c : list (list arg)) : out :=
   match c with
+  | [AW op; AN k; AN a; AN b; AN c; AN d] :: nil =>
+    if String.eqb op "errfmt" then
+      match perr_of_kind k a b c d with
+      | Some e => OL [oopt (fun m => OH (list_byte_of_string m)) (perr_display e); ob (perr_has_source e)]
+      | None => OBad
+      end
+    else OBad
+  | [AW op; AW sp] :: nil =>
+    if String.eqb op "endian" then       (* EndianParse::is_little / is_big of a spec value *)
+      match spec_of sp with Some s => OL [ob (is_little s); ob (negb (is_little s))] | None => OBad end
+    else OBad
   | [AW op; AW sp; AW kind; AN off; AB d] :: nil =>
     if String.eqb op "int" then
       match spec_of sp with Some s => run_int s kind off d | None => OBad end
